@@ -1492,7 +1492,8 @@ class Slice(Funsor, metaclass=SliceMeta):
             name = index.name
             start = self.slice.start + self.slice.step * index.slice.start
             step = self.slice.step * index.slice.step
-            return Slice(name, start, self.slice.stop, step, self.dtype)
+            stop = self.slice.start + self.slice.step * index.slice.stop
+            return Slice(name, start, stop, step, self.dtype)
         else:
             raise NotImplementedError(
                 "TODO support substitution of {} into Slice".format(type(index))
